@@ -206,18 +206,46 @@ func (l *persistentLog) Open() error {
 	return nil
 }
 
-func (l *persistentLog) Replay() error {
-	reader := bufio.NewReader(l.file)
+// countingReader counts the bytes that have been read through it.
+type countingReader struct {
+	reader io.Reader
+	count  int64
+}
 
+func (c *countingReader) Read(p []byte) (int, error) {
+	n, err := c.reader.Read(p)
+	c.count += int64(n)
+	return n, err
+}
+
+func (l *persistentLog) Replay() error {
+	reader := &countingReader{reader: bufio.NewReader(l.file)}
+
+	// The offset of the end of the last entry that was read completely.
+	var end int64
 	for {
 		entry, err := decodeLogEntry(reader)
-		if errors.Is(err, io.EOF) {
+
+		// An incomplete entry at the end of the file is what a crash in the
+		// middle of an append leaves behind. That append never returned, so
+		// the entry is dropped.
+		if errors.Is(err, io.EOF) || errors.Is(err, io.ErrUnexpectedEOF) {
 			break
 		}
 		if err != nil {
 			return fmt.Errorf("could not decode log entry: %w", err)
 		}
 		l.entries = append(l.entries, &entry)
+		end = reader.count
+	}
+
+	// Remove whatever follows the last complete entry so that it is not
+	// mistaken for the start of the next entry, and continue writing there.
+	if err := l.file.Truncate(end); err != nil {
+		return fmt.Errorf("could not truncate log file: %w", err)
+	}
+	if _, err := l.file.Seek(end, io.SeekStart); err != nil {
+		return fmt.Errorf("could not seek log file: %w", err)
 	}
 
 	// The log must always contain at least one entry.
